@@ -4,6 +4,7 @@ package store
 
 import (
 	"os"
+	"time"
 
 	"github.com/douban/gobeansdb/utils"
 )
@@ -24,3 +25,5 @@ func writeFileBytes(path string, b []byte) error {
 }
 
 func utils_Fnv1a(b []byte) uint32 { return utilsFnv(b) }
+
+func sleepMs(n int) { time.Sleep(time.Duration(n) * time.Millisecond) }
